@@ -182,7 +182,7 @@ def spec(e, c, u, l):
 PLACEMENTS = ["none", "top", "in_group", "in_repeat", "in_group_in_repeat", "in_repeat_in_group", "on_group", "on_repeat", "two"]
 
 
-def build(combo, placement, rng, dataset="trees", save_name="prop_a", extra_col=None, rows2=False, namespaces=None, second_row=None):
+def build(combo, placement, rng, dataset="trees", save_name="prop_a", extra_col=None, rows2=False, namespaces=None, second_row=None, settings=None, audit=False):
     e, c, u, l = combo
     ent = {"dataset": dataset}
     for flag, key in zip(combo, ("entity_id", "create_if", "update_if", "label")):
@@ -213,6 +213,10 @@ def build(combo, placement, rng, dataset="trees", save_name="prop_a", extra_col=
     form = {"survey": survey, "entities": [ent] + ([second_row or {"dataset": "d2", "label": "'x'"}] if rows2 else [])}
     if namespaces:
         form["settings"] = [{"namespaces": namespaces}]
+    if settings:
+        form["settings"] = [dict(settings)]
+    if audit:
+        form["survey"].append({"type": "audit", "name": "audit"})
     return form
 
 
@@ -298,6 +302,11 @@ def _check(args):
         expect_reject = True
     elif variant == "namespaces":
         kw["namespaces"] = 'esri="http://esri.com/x"'
+    elif variant == "meta_settings":
+        # what else sits in (or is kept out of) the meta block must not matter to the declaration
+        kw["settings"] = rng.choice([{"omit_instanceID": "yes"}, {"instance_name": "concat('a', 'b')"}, {"omit_instanceID": "yes", "instance_name": "'n'"},
+                                     {"instance_id": "uid"}, {"omit_instanceID": "true"}])
+        kw["audit"] = rng.random() < 0.3
     elif variant == "good_names":
         kw["dataset"] = rng.choice(["trees", "_d", "a-b", "é1"])
         kw["save_name"] = rng.choice(["p", "Names", "labels", "_q", "x-y.z"])
@@ -330,7 +339,7 @@ def _check(args):
 
 def oracle(seed, tier, searching=False):
     combos = list(itertools.product([False, True], repeat=4))
-    variants = ["plain", "good_names", "bad_dataset", "bad_saveto", "extra_col", "two_rows", "namespaces"]
+    variants = ["plain", "good_names", "bad_dataset", "bad_saveto", "extra_col", "two_rows", "namespaces", "meta_settings", "meta_settings"]
     jobs = []
     i = 0
     for combo in combos:
